@@ -11,7 +11,7 @@ import sys
 import time
 import traceback
 
-from . import report
+from . import report, values
 from .pyfront import Repo
 
 TRUSTED = [
@@ -69,11 +69,36 @@ def main(argv=None):
         repo = Repo()
         ctx = report.Ctx(prop, tier, seed, repo)
         mod = importlib.import_module("lsa.rules.%s" % prop.lower())
+        # wall-clock guard: an analysis that does not come back (a tree the analyser cannot digest) is an ANALYSIS-ERROR, never a hang
+        import signal
+
+        class _Timeout(Exception):
+            pass
+
+        def _alarm(signum, frame):
+            raise _Timeout()
+        limit = int(os.environ.get("LSA_RULE_TIMEOUT", "600"))
+        try:
+            signal.signal(signal.SIGALRM, _alarm)
+            signal.alarm(limit)
+        except Exception:
+            pass
         try:
             mod.run(ctx)
         except report.AnalysisError as e:
             o = ctx.ob(e.ob, "analysis aborted")
             o.unknown(e.reason)
+        except values.TooBig as e:
+            o = ctx.ob(prop + ".0", "analysis aborted")
+            o.unknown(str(e))
+        except _Timeout:
+            o = ctx.ob(prop + ".0", "analysis aborted")
+            o.unknown("the rules of %s did not finish within %d s on this tree" % (prop, limit))
+        finally:
+            try:
+                signal.alarm(0)
+            except Exception:
+                pass
         if tier == "thorough" and not replay and not os.environ.get("LSA_NO_EVIDENCE"):
             selfvalidate(ctx, prop)
         code = report.finish(ctx, t0, TRUSTED)
